@@ -8,7 +8,7 @@ from concurrent.futures import ThreadPoolExecutor
 
 from vf.core import Report, Bounded, Violation, Ob, VERIF, REPO
 
-LEVEL = "exploration"
+LEVEL = "other"
 
 
 def run_worker(job, hashseed):
@@ -21,12 +21,32 @@ def run_worker(job, hashseed):
     raise RuntimeError(f"worker failed: {p.stderr[-800:]}")
 
 
+def setorder_obligations(report):
+    from . import setorder
+    sites = setorder.audit(REPO)
+    allow = {(a["file"], a["function"], a["how"], a["expr"]): a["reason"] for a in setorder.load_allow(VERIF)}
+    seen = set()
+    for s in sites:
+        key = (s["file"], s["function"], s["how"], s["expr"])
+        seen.add(key)
+        ok = key in allow
+        report.ob(Ob(id=f"O11.3/{s['file']}:{s['function']}:{s['how']}:{s['expr']}", function=f"{s['file']}::{s['function']}", kind="F",
+                     status="discharged" if ok else "refuted", backend="frame-checker (AST audit of set iterations)",
+                     detail=("classified order-insensitive: " + allow[key]) if ok else
+                     "iteration over a set whose order is not fixed by sorted() and is not classified as order-insensitive: the emitted TEAL may depend on hash seeds / object addresses",
+                     model=None if ok else s))
+    report.ob(Ob(id="O11.3/audit-ran", function="pyteal compile path", kind="F", status="discharged" if sites else "unknown",
+                 backend="frame-checker", detail=f"{len(sites)} set-iteration sites found on the compile path (vacuity guard: must be > 0)"))
+
+
 def run(report: Report, tier, seed):
+    setorder_obligations(report)
     report.trust("python subprocesses with explicit PYTHONHASHSEED as independent fresh processes")
     report.assume("no deductive obligation yet (reads-frame / restore-on-all-exits contracts): the property is explored by comparing digests of compiled TEAL across histories, hash seeds and repetitions (bounded stand-in)")
     n = 24 if tier == "quick" else 200
     items = [["gen", seed * 100003 + 88000 + i, [4, 6, 8, 9, 10][i % 5]] for i in range(n)] + \
-            [["abi", k, v] for k in range(2) for v in (6, 8, 10)] + [["router", k, v] for k in range(1) for v in (6, 8, 10)]
+            [["abi", k, v] for k in range(2) for v in (6, 8, 10)] + [["router", k, v] for k in range(1) for v in (6, 8, 10)] + \
+            [["collide", k, v] for k in range(3) for v in (5, 6, 10)]
     histories = {
         "fresh": [],
         "after-successful": ["ok", "router", "tmpl"],
@@ -65,6 +85,8 @@ def run(report: Report, tier, seed):
                                   bound=f"{len(items)} programs (generated, ABI subroutine, router) x {len(jobs)} process scenarios (hash seeds, 3 histories, reversed order, in-process repetition)",
                                   cases=ncmp + len(ref), distinct_nontrivial=len(items), failures=sum(len(v) for v in problems.values())))
     report.sample({"scenarios": [j[0] for j in jobs]})
+    report.extra["explanation"] = "F: audit of unordered iterations on the compile path (syntactic, stated inference rules); B: digests across processes / histories"
+    report.settle_refuted(None)
     for key, lst in problems.items():
         k, why, d = lst[0]
         report.violation(Violation(key=key, what=f"{why}: item {k} ({len(lst)} item(s) affected)", replay={"item": k, "digests": d, "scenario": key}, confirmed_native=True))
